@@ -291,7 +291,7 @@ def run(ctx):
                     ctx.count_case("corpus:" + o, nontrivial=not (o.startswith("conn ") or o.startswith("x ")))
                 corr_broken += report(ctx, binp, env, st, "corpus")
             runs = [("^TestVerifGateAllowed$", "gateia", ctx.budget(20000, 200000)),
-                    ("^TestVerifGateCorr$", "gate", ctx.budget(15000, 120000))]
+                    ("^TestVerifGateCorr$", "gate", ctx.budget(15000, 80000))]
             for test, stream, n in runs:
                 st = Stream(ctx, binp, test, stream, dict(env, VERIF_N=n))
                 if st.hist:
